@@ -256,6 +256,9 @@ end PS
 def wpsIsHermitian (P : PS) (w : GQ) : Bool :=
   ((GQ.ofInts (phaseWeightedHerm.getD P.q.val (0, 0))) * w).im == 0
 
+/-- `WeightedPauliString.is_unitary`: `abs(self.weight) == 1` (over exact numbers: `|w|² = 1`) -/
+def wpsIsUnitary (w : GQ) : Bool := w.normSq == 1
+
 /-- `PauliOperator.pstrings`: insertion-ordered (string, weight) pairs -/
 abbrev PauliOp (α : Type) := List (PS × α)
 
